@@ -31,6 +31,8 @@ type boolCase struct {
 	msgs    []string
 }
 
+var oracleOnlyRe = regexp.MustCompile(`\b(w\.g|fa\[|mc|mc2)\b|\bfa\[`)
+
 var simplifyRe = regexp.MustCompile("^can simplify `(.*)` to `(.*)`$")
 
 func Run(tier string, seed int64, outDir string) *common.Meta {
@@ -42,6 +44,7 @@ func Run(tier string, seed int64, outDir string) *common.Meta {
 	runBool(meta, seed, outDir, nExpr, nPairs)
 	runRules(meta, tier, seed, outDir)
 	runNewDeref(meta, outDir)
+	runUnlambdaTie(meta, outDir)
 	meta.Rule = "distinct_nontrivial = number of distinct generated expressions/programs on which the real checker emitted at least one diagnostic (each compared with the model's diagnostic text in Coq and executed differentially)"
 	return meta
 }
@@ -115,6 +118,12 @@ func runBool(meta *common.Meta, seed int64, outDir string, nExpr, nPairs int) {
 			continue
 		}
 		ret := fd.Body.List[0].(*ast.ReturnStmt).Results[0]
+		if oracleOnlyRe.MatchString(byFn[fd.Name.Name].src) {
+			// struct fields, array elements and complex operands are outside the model's fragment: these
+			// expressions are executed by the differential oracle but not compared with the model
+			byFn[fd.Name.Name].term = ""
+			continue
+		}
 		t, err := conv.Expr(ret)
 		if err != nil {
 			panic(fmt.Sprintf("generated expression outside the model fragment: %s: %v", byFn[fd.Name.Name].src, err))
@@ -166,7 +175,7 @@ func runBool(meta *common.Meta, seed int64, outDir string, nExpr, nPairs int) {
 	meta.Distinct += flagged
 	meta.Distribution["bool_flavours"] = flDist
 	meta.Distribution["bool_flagged"] = flagged
-	meta.Distribution["bool_dropped_untyped_float_context"] = dropped
+	meta.Distribution["bool_dropped_untyped_float_context_or_oracle_only"] = dropped
 	meta.Distribution["bool_model_constructors"] = conv.Stats
 
 	// ---- oracle: compile and run original vs suggestion
